@@ -104,11 +104,27 @@ def vd(v):
     return v[2:] if isinstance(v, str) and v.startswith("u:") else v
 
 
+def _unrenderable(kind, what):
+    """the ways rendering can fail: `__str__` raises ValueError / RuntimeError / a KeyError without arguments, or returns
+    something that is no string (str() then raises TypeError)"""
+    k = kind % 4
+    if k == 0:
+        raise ValueError("cannot render " + what)
+    if k == 1:
+        return None
+    if k == 2:
+        raise RuntimeError("cannot render " + what)
+    raise KeyError()
+
+
 class UnprintablePayload:
-    """a payload that cannot be rendered as text"""
+    """a payload that cannot be rendered as text (`kind` selects how rendering fails)"""
+
+    def __init__(self, kind=0):
+        self.kind = kind
 
     def __str__(self):
-        raise ValueError("cannot render payload")
+        return _unrenderable(self.kind, "payload")
 
 
 class HookError(RuntimeError):
@@ -121,9 +137,10 @@ class AgentAbort(BaseException):
 
 class Unprintable(Exception):
     """an exception that cannot be rendered as text (e.g. a wrapped remote error with a broken __str__)"""
+    kind = 0
 
     def __str__(self):
-        raise ValueError("cannot render")
+        return _unrenderable(self.kind, "exception")
 
 
 class Unreprable(Exception):
@@ -139,9 +156,12 @@ EXC_FAMILY = ("exc", "excS", "excB")                     # what the recorder rep
 #                                                          an Exception whose str() raises, a BaseException
 
 
-def make_exception(tok):
-    return {"exc": lambda: RuntimeError("stub agent failure"), "excK": KeyError, "excS": Unprintable,
-            "excR": Unreprable, "excB": lambda: AgentAbort("stub agent aborted")}[tok]()
+def make_exception(tok, kind=0):
+    e = {"exc": lambda: RuntimeError("stub agent failure"), "excK": KeyError, "excS": Unprintable,
+         "excR": Unreprable, "excB": lambda: AgentAbort("stub agent aborted")}[tok]()
+    if isinstance(e, Unprintable):
+        e.kind = kind          # how its __str__ fails: varies with the agent's call counter (deterministic per case)
+    return e
 
 
 def classify_exception(e) -> str:
@@ -195,10 +215,10 @@ class Stub:
         if not self.store.consume(cost=COST):
             return self.types.ActionProtein("FAILURE", "Apoptosis: Insufficient ATP", 0.0)
         if isinstance(self.next, _Exc):
-            raise make_exception(self.next.tok)
+            raise make_exception(self.next.tok, self.k)
         k = self.k
         if isinstance(self.next, _Unp):
-            return self.types.ActionProtein(self.next.verdict, UnprintablePayload(), _CONFS[k % len(_CONFS)],
+            return self.types.ActionProtein(self.next.verdict, UnprintablePayload(k), _CONFS[k % len(_CONFS)],
                                             source_agent=_SOURCES[k % len(_SOURCES)], metadata={"note": "adversarial", "k": k})
         return self.types.ActionProtein(self.next, _PAYLOADS[k % len(_PAYLOADS)], _CONFS[k % len(_CONFS)],
                                         source_agent=_SOURCES[(k * 3 + len(str(self.next))) % len(_SOURCES)],
